@@ -93,6 +93,7 @@ static json run_job(const json& job)
         } else throw std::invalid_argument("bad builder");
     });
     out["main"] = main;
+    out["nerr_main"] = doc->get_errors().size();   // diagnostics of the main parse; later ones belong to exprs/queries
     if (builder == "pretty") out["pretty"] = pretty_out.str();
     // expression parses in the scope of the (global frame of the) document
     if (job.contains("exprs")) {
